@@ -115,42 +115,42 @@ P = {
 # Python functions re-translated into Lean from /repo's current source on every run (harness/py2lean.py, harness/pytrace.py) and proved equal to the
 # model (Tie/Py*.lean), with the property-level corollaries about the translated code (Tie/PyProps*.lean); DESIGN §9.5
 PYTIE = {
- 'C01': ('find_kmers, KmerMatch.kmer_indices, KmerMatch.kmer_index, accumulate_kmers, default_accumulator, calc_signature; as structural facts the accumulator classes and the binding of revcomp / ckmers to the compiled module',
-         'find_kmers_eq, kmer_indices_fwd/rev, py_find_kmers_complete, py_calc_signature_spec, accumulator_facts, kmer_binding_facts'),
+ 'C01': ('find_kmers, KmerMatch.kmer_indices, KmerMatch.kmer_index, accumulate_kmers, default_accumulator, calc_signature; as structural facts the accumulator classes and the binding of revcomp / ckmers to the compiled module; KmerSpec.__init__, the shape of KmerSpec and DEFAULT_KMERSPEC (structural facts)',
+         'find_kmers_eq, kmer_indices_fwd/rev, py_find_kmers_complete, py_calc_signature_spec, accumulator_facts, kmer_binding_facts, kmerspec_facts'),
  'C02': ('_cast_sigs_array, jaccard, jaccarddist (the Python wrappers of the kernels); as a structural fact that _cmetric is the compiled module',
          'cast_sigs_array_eq, jaccarddist_eq, jaccard_eq, jaccarddist_bad, py_jaccarddist_correctly_rounded, metric_binding_facts'),
- 'C03': ('matching_taxon, GenomeMatch.next_taxon, classify, reportable_taxon, get_result_item; as structural facts the data flow of query(); Taxon.ancestors (the lineage walk itself); as structural facts the computed defaults of the result records and zip_strict',
-         'matching_taxon_eq, next_taxon_eq, classify_default_eq, reportable_taxon_eq, get_result_item_eq, py_matching_spec, py_next_spec, py_coarsen_mono, py_classify_default_ok, query_flow_facts, taxon_ancestors_eq, py_ancestors_chain, classify_defaults_facts, zip_strict_facts'),
+ 'C03': ('matching_taxon, GenomeMatch.next_taxon, classify, reportable_taxon, get_result_item; as structural facts the data flow of query(); Taxon.ancestors (the lineage walk itself); as structural facts the computed defaults of the result records and zip_strict; the shapes of the result record classes (structural facts)',
+         'matching_taxon_eq, next_taxon_eq, classify_default_eq, reportable_taxon_eq, get_result_item_eq, py_matching_spec, py_next_spec, py_coarsen_mono, py_classify_default_ok, query_flow_facts, taxon_ancestors_eq, py_ancestors_chain, classify_defaults_facts, zip_strict_facts, result_classes_facts'),
  'C04': ('_check_genomes_have_ids, _map_ids_to_genomes, genomes_by_id, genomes_by_id_subset, ReferenceDatabase.__init__; as structural facts the data flow of query() (ref_indices=db.sig_indices); ReferenceDatabase.locate_files (local helper inlined); as structural facts load / load_from_dir / load_genomeset / only_genomeset and the command line\'s way of opening the database',
          'genomes_by_id_subset_eq, refdb_init_eq, py_refdb_pairing, query_flow_facts, locate_files_eq, py_locate_ok_iff, py_locate_raises, load_flow_facts'),
- 'C05': ('chunk_slices, jaccarddist_array, jaccarddist_matrix, jaccarddist_pairwise',
-         'chunk_slices_eq/_bad/_neg, py_chunks_partition, jaccarddist_array_spec, jaccarddist_matrix_eq, py_matrix_cells, py_pairwise_flat, py_pairwise_square, metric_binding_facts'),
- 'C06': ('find_kmers, KmerMatch.kmer_index, accumulate_kmers, calc_signature, calc_file_signature, guess_compression; accumulator and binding facts; as structural facts _open_auto, open_compressed, maybe_open, seq_to_bytes, SequenceFile.open / parse / from_paths',
-         'find_kmers_eq, py_calc_signature_spec, calc_file_signature_eq, py_file_signature_invariant, py_file_signature_union, guess_compression_eq, accumulator_facts, kmer_binding_facts, io_flow_facts'),
+ 'C05': ('chunk_slices, jaccarddist_array, jaccarddist_matrix, jaccarddist_pairwise; the constructors of the two in-memory collections (structural facts)',
+         'chunk_slices_eq/_bad/_neg, py_chunks_partition, jaccarddist_array_spec, jaccarddist_matrix_eq, py_matrix_cells, py_pairwise_flat, py_pairwise_square, metric_binding_facts, sigarray_init_facts'),
+ 'C06': ('find_kmers, KmerMatch.kmer_index, accumulate_kmers, calc_signature, calc_file_signature, guess_compression; accumulator and binding facts; as structural facts _open_auto, open_compressed, maybe_open, seq_to_bytes, SequenceFile.open / parse / from_paths; the shape of SequenceFile (structural fact)',
+         'find_kmers_eq, py_calc_signature_spec, calc_file_signature_eq, py_file_signature_invariant, py_file_signature_union, guess_compression_eq, accumulator_facts, kmer_binding_facts, io_flow_facts, sig_classes_facts'),
  'C07': ('kmer_to_index, kmer_to_index_rc, index_dtype, nkmers; as structural facts that seq.revcomp / kmers.index_to_kmer are the compiled functions',
          'kmer_to_index_eq, kmer_to_index_rc_eq, index_dtype_eq, nkmers_eq, kmer_binding_facts'),
- 'C08': ('strip_extensions, strip_seq_file_ext, get_file_id, calc_file_signatures, calc_file_signature, read_lines, get_sequence_files (pathlib normal form, str.strip); as structural facts query_parse, QueryInput.convert and the file-opening functions',
-         'strip_extensions_eq, strip_seq_file_ext_eq, get_file_id_eq/_nostrip/_noext, calc_files_sequential_eq, calc_files_pool_eq, calc_file_signature_eq, read_lines_eq, get_sequence_files_eq, py_seqfiles_positional, py_seqfiles_list, py_seqfiles_labels_positional, query_parse_facts, io_flow_facts'),
- 'C09': ('classify, get_result_item; the data flow of query() as structural facts; computed defaults of the result records (structural facts)',
-         'classify_default_eq, classify_strict_eq, get_result_item_eq, get_result_item_head, py_closest_ok, query_flow_facts, classify_defaults_facts'),
- 'C10': ('find_matches, consensus_taxon, classify; the data flow of query() as structural facts; Taxon.ancestors; computed defaults of the result records and zip_strict (structural facts)',
-         'find_matches_eq, consensus_taxon_eq, classify_strict_eq, py_consensus_perm, py_classify_strict_ok, query_flow_facts, taxon_ancestors_eq, classify_defaults_facts, zip_strict_facts'),
- 'C11': ('getattr_nested and the column table of CSVResultsExporter (COLUMNS, get_header, get_row); the conversion rules JSONResultsExporter and ResultsArchiveWriter register (as data), with BaseJSONResultsExporter, _todict, the cattrs converter and its hooks, CSVResultsExporter.export, the archive reader and the exporter choice as structural facts',
-         'getattr_nested_eq, py_csv_cells, py_csv_row, csv_header_eq, csv_row_eq, csv_structural_facts, json_rules_eq, archive_rules_eq, json_structural_facts, py_json_item, py_json_results, py_json_carries, py_archive_item, py_archive_keys, archive_reader_facts, exporter_choice_facts'),
- 'C12': ('the storage calls of dump_signatures_hdf5 / HDF5Signatures.create / _init_attrs / write_metadata / _init_datasets, the loader\'s checks, HDF5Signatures.__init__ (structural facts), the inherited __getitem__ and _getitem_* methods, the method resolution of the collection classes (structural facts); write_metadata / read_metadata / none_to_empty / empty_to_none / dump_signatures (structural facts)',
-         'writer_trace_eq, hdf5_structural_facts, reader_structural_facts, class_structure_facts, concat_getitem_eq, concat_getitem_slice_eq, hdf5_meta_facts'),
+ 'C08': ('strip_extensions, strip_seq_file_ext, get_file_id, calc_file_signatures, calc_file_signature, read_lines, get_sequence_files (pathlib normal form, str.strip); as structural facts query_parse, QueryInput.convert and the file-opening functions; the shape of SequenceFile (structural fact)',
+         'strip_extensions_eq, strip_seq_file_ext_eq, get_file_id_eq/_nostrip/_noext, calc_files_sequential_eq, calc_files_pool_eq, calc_file_signature_eq, read_lines_eq, get_sequence_files_eq, py_seqfiles_positional, py_seqfiles_list, py_seqfiles_labels_positional, query_parse_facts, io_flow_facts, sig_classes_facts'),
+ 'C09': ('classify, get_result_item; the data flow of query() as structural facts; computed defaults of the result records (structural facts); the shapes of the result record classes (structural facts)',
+         'classify_default_eq, classify_strict_eq, get_result_item_eq, get_result_item_head, py_closest_ok, query_flow_facts, classify_defaults_facts, result_classes_facts'),
+ 'C10': ('find_matches, consensus_taxon, classify; the data flow of query() as structural facts; Taxon.ancestors; computed defaults of the result records and zip_strict (structural facts); the shapes of the result record classes (structural facts)',
+         'find_matches_eq, consensus_taxon_eq, classify_strict_eq, py_consensus_perm, py_classify_strict_ok, query_flow_facts, taxon_ancestors_eq, classify_defaults_facts, zip_strict_facts, result_classes_facts'),
+ 'C11': ('getattr_nested and the column table of CSVResultsExporter (COLUMNS, get_header, get_row); the conversion rules JSONResultsExporter and ResultsArchiveWriter register (as data), with BaseJSONResultsExporter, _todict, the cattrs converter and its hooks, CSVResultsExporter.export, the archive reader and the exporter choice as structural facts; the CSV dialect and the shapes of the result record classes (structural facts)',
+         'getattr_nested_eq, py_csv_cells, py_csv_row, csv_header_eq, csv_row_eq, csv_structural_facts, json_rules_eq, archive_rules_eq, json_structural_facts, py_json_item, py_json_results, py_json_carries, py_archive_item, py_archive_keys, archive_reader_facts, exporter_choice_facts, csv_dialect_facts, result_classes_facts'),
+ 'C12': ('the storage calls of dump_signatures_hdf5 / HDF5Signatures.create / _init_attrs / write_metadata / _init_datasets, the loader\'s checks, HDF5Signatures.__init__ (structural facts), the inherited __getitem__ and _getitem_* methods, the method resolution of the collection classes (structural facts); write_metadata / read_metadata / none_to_empty / empty_to_none / dump_signatures (structural facts); which attribute of the HDF5 group holds which field on the writing and on the reading side (as data); the constructors of the in-memory collections and the shape of SignaturesMeta (structural facts)',
+         'writer_trace_eq, hdf5_structural_facts, reader_structural_facts, class_structure_facts, concat_getitem_eq, concat_getitem_slice_eq, hdf5_meta_facts, meta_writer_eq, meta_reader_eq, py_meta_roundtrip, sigarray_init_facts, sig_classes_facts'),
  'C13': ('calc_file_signatures', 'calc_files_executor_eq, calc_files_pool_eq, calc_files_sequential_eq, calc_files_bad_concurrency, py_calc_files_any_order'),
- 'C14': ('kspec_from_params, the parameter-deciding fragments of `dist` and `signatures create`, structural facts of the three commands; the file-opening functions (structural facts)',
-         'kspec_from_params_eq, dist_params_eq, create_params_eq, py_dist_never_silent, cli_structural_facts, io_flow_facts'),
+ 'C14': ('kspec_from_params, the parameter-deciding fragments of `dist` and `signatures create`, structural facts of the three commands; the file-opening functions (structural facts); the attribute tables of the signature file (the k-mer parameters a file is recognised by); KmerSpec, check_params_group, kspec_params (structural facts)',
+         'kspec_from_params_eq, dist_params_eq, create_params_eq, py_dist_never_silent, cli_structural_facts, io_flow_facts, py_meta_roundtrip, kmerspec_facts, cli_params_facts'),
  'C15': ('_cast_sigs_array, jaccard, jaccarddist, jaccarddist_array / _matrix / _pairwise', 'jaccarddist_eq, py_width_irrelevant, jaccarddist_array_spec, jaccarddist_matrix_eq, metric_binding_facts'),
- 'C16': ('strip_extensions, strip_seq_file_ext, get_file_id; as structural facts the data flow of dist_cmd and the layout written by dump_dmat_csv; read_lines, get_sequence_files; zip_strict (structural fact)',
-         'get_file_id_eq, dist_flow_facts, get_sequence_files_eq, py_seqfiles_positional, py_seqfiles_list, zip_strict_facts'),
+ 'C16': ('strip_extensions, strip_seq_file_ext, get_file_id; as structural facts the data flow of dist_cmd and the layout written by dump_dmat_csv; read_lines, get_sequence_files; zip_strict (structural fact); dump_dmat_csv (as the rows handed to the csv writer)',
+         'get_file_id_eq, dist_flow_facts, get_sequence_files_eq, py_seqfiles_positional, py_seqfiles_list, zip_strict_facts, dump_dmat_csv_eq, dump_dmat_csv_bad, py_dist_csv, py_dist_csv_cells'),
  'C17': ('linkage_to_bio_tree', 'linkage_to_bio_tree_eq, linkage_to_bio_tree_gen, linkage_to_bio_tree_bad_labels, py_linkage_tree_props'),
  'C18': ('ReadOnlySession, its before_commit listener, file_sessionmaker (structure)', 'session_structural_facts'),
  'C19': ('the storage calls of dump_signatures_hdf5 and everything it calls, its exception handler; read_lines / get_sequence_files and calc_file_signatures (which label goes with which signature); as structural facts tree_cmd and hclust; as structural facts how the library and the command line open a database (load_genomeset, CLIContext._init_genomes: ReadOnlySession)',
          'writer_trace_eq, writer_trace_no_flush, writer_trace_close_last, py_crash_never_loads, hdf5_structural_facts, tree_flow_facts, get_sequence_files_eq, py_calc_files_any_order, load_flow_facts'),
- 'C20': ('AdvancedIndexingMixin.__getitem__ (as inherited by the packed and by the list-backed collections, on a dynamically typed index), _check_index, _getitem_slice, _getitem_bool_array, ConcatenatedSignatureArray.__len__/_getitem_int/sizeof/_getitem_int_array/_getitem_slice, SignatureList._getitem_int/_getitem_int_array/__setitem__/__delitem__/insert, sigarray_eq; the method resolution of the collection classes (structural facts); AbstractSignatureArray.__eq__ (structural fact)',
-         'concat_getitem_eq, siglist_getitem_eq, py_getitem_same_selection, py_getitem_ill_typed, check_index_eq, concat_getitem_slice_eq, siglist_setitem_eq/_delitem_eq/_insert_eq, sigarray_eq_eq, class_structure_facts, eq_flow_facts'),
+ 'C20': ('AdvancedIndexingMixin.__getitem__ (as inherited by the packed and by the list-backed collections, on a dynamically typed index), _check_index, _getitem_slice, _getitem_bool_array, ConcatenatedSignatureArray.__len__/_getitem_int/sizeof/_getitem_int_array/_getitem_slice, SignatureList._getitem_int/_getitem_int_array/__setitem__/__delitem__/insert, sigarray_eq; the method resolution of the collection classes (structural facts); AbstractSignatureArray.__eq__ (structural fact); the constructors of the two in-memory collections (structural facts)',
+         'concat_getitem_eq, siglist_getitem_eq, py_getitem_same_selection, py_getitem_ill_typed, check_index_eq, concat_getitem_slice_eq, siglist_setitem_eq/_delitem_eq/_insert_eq, sigarray_eq_eq, class_structure_facts, eq_flow_facts, sigarray_init_facts'),
 }
 
 REASON_PENDING = 'check not built yet in this round (machinery under construction; see DESIGN.md §8 build order)'
@@ -203,7 +203,7 @@ def main():
 			'serves_properties': [c['property_id'] for c in checks],
 			'kind_free_text': 'machine-checked proof in Lean 4 about executable models; models tied to the code on every run by a '
 			                  'differential correspondence check whose oracle is the Lean spec, and by translators that regenerate Lean definitions from the '
-			                  'current sources on every run (.pyx→Lean for the Cython kernels, Python→Lean for twenty logic functions), proved equal to the models',
+			                  'current sources on every run (.pyx→Lean for the Cython kernels, Python→Lean for some eighty functions and methods, conversion rules / attribute tables read as data, and about sixty glue functions and classes pinned statement by statement), proved equal to the models',
 		}],
 		'checks': checks,
 		'not_applicable': na,
